@@ -7,6 +7,8 @@ props = [json.loads(l) for l in open('/verif/properties.jsonl')]
 base = json.load(open('/root/.vp/BASELINE.json'))
 NOTE = "Trusted: Coq 8.16.1 kernel; the hand-written model is tied to /repo by a correspondence run on every check (extracted OCaml model vs the real code through //go:build verif hooks) and by regenerated tables; translator, harness, extraction (ExtrOcamlBasic only), Go toolchain. See DESIGN.md section 6."
 claimed = {
+ "C15": ("proof", "Coq theorems over the site-identity model M3 (transcription of primitivizer.site and the 13 Key kinds): injectivity of the identity in the declaring package's view (positions injective, representation injective per object), stability of a dependency's identity in any importer view whenever the dependency's facts mention the object (for EVERY position the importer may believe), and the fallback otherwise. Tied by a look-alike corpus through the whole tool (each pair of twins has opposite nilability, cross-package) and by an identity oracle over all site tuples in exported facts (in-memory and gob).", "Coq proof + whole-tool aliasing corpus + identity oracle over real facts"),
+ "C18": ("proof", "Partial. Coq theorems over the path model M4b (filepath.Rel on clean absolute paths, PortionAfterSep): relocation invariance, injectivity of relativisation for a fixed cwd, equal names under one cwd iff under any other, printed names depend only on trailing segments. Tied by correspondence with the real RelToCwd/PortionAfterSep (one process per cwd) and by running the real binary on one module at 2 locations x 5 start directories (incl. parent via go.work) with cross-package and nolint flows. Per-package-cwd drivers (go vet) are outside the model (finding F12).", "Coq proof + correspondence + whole-binary relocation suite"),
  "C19": ("proof", "Theorems over the regenerated Converse/Inverse tables, checker list and application loop of AddNilCheck, for all operators and all operand values (unbounded Z); the translator is validated by executing the Go functions.", "regenerated tables + Coq proofs (case split, lia)"),
  "C05": ("proof", "Coq theorems over the engine model M1 (transcription of inference/engine.go): conflict <-> a source reaches a sink, explanations are real paths, verdicts = reachable sets, order independence, termination; for all constraint sets and orders, no bound. The model is tied to the code by running the extracted model and the real Engine on the same scenarios (every observable compared) and by evaluating the statement itself on the real engine's outputs.", "Coq proof (invariants over a work-list semantics) + correspondence with the real engine"),
  "C06": ("proof", "Coq theorems over M1's export (chooseSitesToExport / inferredValDiff / Export): verdicts of exported sites kept, increment omits upstream information, Export never panics; convexity and downstream equivalence are validated by correspondence and by comparing modular with whole-graph analysis on the real engine (known finding F15 outside the claimed domain).", "Coq proof + correspondence (export set, fact, gob round trip) + modular-vs-whole-graph oracle on the real engine"),
